@@ -108,6 +108,8 @@ func (m *Machine) runGoroutine(g *goroutine) {
 			return
 		}
 		// finished normally: hand the baton on
+		for !m.schedOn() && m.pickNext(g) == nil && m.advanceTime() {
+		}
 		if m.schedOn() {
 			g.pending = nil
 			func() {
@@ -150,6 +152,32 @@ func (m *Machine) wakeMainAbort() {
 }
 
 // block parks the current goroutine until ready() holds.
+// advanceTime moves virtual time to the earliest pending deadline (nothing else can run).
+func (m *Machine) advanceTime() bool {
+	p := m.path
+	best := int64(-1)
+	bi := -1
+	for i, d := range p.deadlines {
+		if d > p.now && (best < 0 || d < best) {
+			best, bi = d, i
+		}
+	}
+	if bi < 0 {
+		return false
+	}
+	p.now = best
+	p.deadlines = append(p.deadlines[:bi], p.deadlines[bi+1:]...)
+	return true
+}
+
+// timerTick delivers the tick of a timer channel whose time has come.
+func (m *Machine) timerTick(ch *Chan) {
+	if ch != nil && ch.readyAt > 0 && !ch.fired && m.path.now >= ch.readyAt {
+		ch.fired = true
+		ch.Buf = append(ch.Buf, chanItem{v: Struct{m.ts.BV(0, 64), m.ts.BV(0, 64), Ptr(nil)}})
+	}
+}
+
 func (m *Machine) block(ready func() bool, what string) {
 	g := m.cur
 	if m.noForkDepth > 0 {
@@ -157,6 +185,14 @@ func (m *Machine) block(ready func() bool, what string) {
 	}
 	g.ready = ready
 	next := m.pickNext(g)
+	for next == nil && !m.schedOn() && m.advanceTime() {
+		// nobody can run: time passes until the next sleep ends or timer fires
+		if ready() {
+			g.ready = nil
+			return
+		}
+		next = m.pickNext(g)
+	}
 	if next == nil {
 		if g.draining {
 			g.ready = nil
@@ -238,8 +274,9 @@ func (m *Machine) chanRecv(ch *Chan, commaOk bool, t types.Type) Value {
 	if ch == nil {
 		m.block(func() bool { return false }, "receive on nil channel")
 	}
+	m.timerTick(ch)
 	if len(ch.Buf) == 0 && !ch.Closed {
-		m.block(func() bool { return len(ch.Buf) > 0 || ch.Closed }, fmt.Sprintf("receive on empty channel c%d", ch.ID))
+		m.block(func() bool { m.timerTick(ch); return len(ch.Buf) > 0 || ch.Closed }, fmt.Sprintf("receive on empty channel c%d", ch.ID))
 	}
 	var elemT types.Type
 	if commaOk {
@@ -296,6 +333,7 @@ func (m *Machine) selectOp(fr *frame, instr *ssa.Select) Value {
 			if s.ch == nil {
 				continue
 			}
+			m.timerTick(s.ch)
 			if s.send {
 				if s.ch.Closed || (s.ch.Cap > 0 && len(s.ch.Buf) < s.ch.Cap) {
 					r = append(r, i)
